@@ -217,6 +217,15 @@ class _Hooks:
     async def on_message(self, msg):
         ad = self._verif_ad
         ad.events.append([1, ad.msg_proj(msg)])
+        if ad.raising:
+            # an application callback that fails (Fix/SessionHooks.v; C04_raising_callback_is_invisible proves that the
+            # model's result does not depend on it): after the message was handed over
+            try:
+                n = int(msg[34])
+            except Exception:  # noqa: BLE001
+                n = None
+            if "all" in ad.raising or n in ad.raising:
+                raise RuntimeError("application callback failed (harness)")
 
     async def on_connect(self):
         pass
@@ -272,6 +281,7 @@ class Adapter:
         self.recording = True
         self.events = []
         self.declined = set(declined)
+        self.raising = set()
         cls = _rec_class(role)
         self.proto = FIXProtocol44()
         self.codec = Codec(self.proto)
@@ -628,6 +638,7 @@ async def _run_history(start, items, declined):
     try:
         for it in start.get("prelude", []):
             await _exec_item(ad, it, 0, project=False)
+        ad.raising = set(start.get("raising", ()))          # numbers whose on_message callback raises ("all": every one)
         ad.set_world(st=start.get("st"), role=start.get("role"), nin=start.get("nin"), nout=start.get("nout"),
                      maxres=start.get("maxres"), treq=start.get("treq", "keep"), wasact=start.get("wasact"),
                      lastt=start.get("lastt"), wr=start.get("wr"))
